@@ -30,6 +30,13 @@ CHECKS = {
         "Trusted: the reference model. Global rules hitting a file that is covered by (and satisfies) a directory rule are outside the alphabet because the documentation is contradictory about them (DESIGN C18). Patterns and paths are lower case.",
         "DESIGN.md section 3 / C18",
     ),
+    "C20": (
+        "model_checking",
+        "explicit-state breadth-first search over config-file states; each transition is a real CLI command (init-config / config set / get / reset); exact-bytes state de-duplication; invariants on every transition",
+        "State = bytes of the configuration file. From every initial state (absent, each preset's generated file, every hand-written YAML shape: section subsets x key spelling x block/flow/top-level-flow x comments x extra keys x final newline x document marker) the real commands are applied; BFS to the stated depth over the complete command menu from representative states and fixed interleavings from every shape. Invariants: merge result is valid YAML, every pre-existing setting loads unchanged through the linters' loader, idempotence, generated files accepted by every linter command, rejected `config set` leaves the bytes unchanged, accepted values are returned by `config get` and survive YAML/JSON round trips.",
+        "Trusted: yaml.safe_load as the judge of validity; the linters' own parse_config_file as the definition of `in effect`; the echoed value of `config set` as the accepted value. Depth and value menu are bounded as stated in the evidence.",
+        "DESIGN.md section 3 / C20",
+    ),
 }
 
 NOT_APPLICABLE: dict[str, str] = {}
